@@ -38,6 +38,7 @@ RULES = {
     "R20.8": "the four problem constructors and the solver accept `config` or keyword arguments the same way: self.config = config if given else self.Config(**kwargs)",
     "R20.9": "verbosity: every validator-accepted level 0..4 is a key of the level table, the table is {0:ERROR,1:WARNING,2:INFO,3:DEBUG,4:TRACE}, the string table of set_verbosity is its inverse, anything else raises",
     "R20.10": "defaults: every field default lies in the validator-accepted domain, and the five solver configurations agree on the defaults of their shared fields (gamma of relative value iteration excepted); jax_double_precision defaults to True",
+    "R20.15": "a discount factor that is not a number in [0, 1] is rejected - NaN included: some guard on gamma raises when every comparison with gamma is false (`not 0 <= gamma <= 1` does, `gamma < 0 or gamma > 1` does not, and a NaN gamma then builds a solver whose threshold and values are NaN)",
     "R20.14": "a division whose divisor can be 0 for a validator-accepted configuration (the max-diff threshold divides by gamma, and gamma = 0 is accepted) is carried out on JAX / NumPy scalars, where it yields inf, never on Python numbers, where it raises ZeroDivisionError in the constructor: the attribute holding the divisor is assigned from an array constructor",
     "R20.13": "no function or method of the package has a mutable or call-valued default argument (list / dict / set display, constructor call): it is evaluated once and shared by every call and every solver instance, so one solve could change the defaults of the next (expected count zero)",
     "R20.12": "a configuration value for which 0 / 0.0 is a valid setting (gamma, checkpoint_frequency, max_checkpoints, fire / substitution probability, random_seed) is never subjected to truthiness (`x or default`, `if x:`, `x and ...`): the valid zero would silently become the fallback (expected count zero; `verbose`, where 0 means quiet, is exempt)",
@@ -802,6 +803,18 @@ def _x64(ctx, col):
         col.add("R20.6", "Solver._setup_config", file, fn.lineno, False, "no jax.config.update('jax_enable_x64', ...) in the constructor",
                 text="x64 switch")
         return
+    # the process-global flag may only ever be switched ON by the package: switching it off (a literal False, or the solver's own
+    # jax_double_precision passed through) silently turns every solver that already exists in the process into a 32-bit one
+    for m_ in ctx.repo.modules.values():
+        for c_ in ast.walk(m_.tree):
+            if isinstance(c_, ast.Call) and ast.unparse(c_.func) in ("jax.config.update", "config.update") and c_.args \
+                    and isinstance(c_.args[0], ast.Constant) and c_.args[0].value == "jax_enable_x64":
+                v_ = c_.args[1] if len(c_.args) > 1 else next((k.value for k in c_.keywords if k.arg in ("val", "value")), None)
+                ok_ = isinstance(v_, ast.Constant) and v_.value is True
+                col.add("R20.6", "jax_enable_x64", m_.relpath, c_.lineno, ok_,
+                        "the 64-bit flag is only ever switched on" if ok_ else
+                        f"`{norm_text(c_)[:80]}` can switch the process-global 64-bit flag OFF: a solver built earlier with double precision (the default) "
+                        "then computes and returns float32 values", text="x64 flag value")
     # the guard of the switch
     parents = parents_of(fn)
     p = parents.get(id(switch.ast))
@@ -1319,6 +1332,7 @@ def run(ctx: Context, col) -> None:
     part(_truthiness, ctx, col)
     part(_mutable_defaults, ctx, col)
     part(_x64, ctx, col)
+    part(_nan_gamma, ctx, col)
     try:
         _format_precision(ctx, col)
     except AnalysisError as e:
@@ -1343,3 +1357,63 @@ def run(ctx: Context, col) -> None:
     if not any("R20.5 not evaluated" in n for n in col.notes):
         col.floor("R20.5", 12)
     col.floor("R20.6", 2)
+    col.floor("R20.15", 5)
+
+
+# =============================================================================== R20.15
+def _truth_under_nan(e, field):
+    """truth value of a guard when `self.<field>` is NaN: every ordering / equality comparison that involves it is False (`!=` is True);
+    None when it cannot be told"""
+    def mentions(x):
+        return any(is_self_attr(n, field) for n in ast.walk(x))
+    if isinstance(e, ast.UnaryOp) and isinstance(e.op, ast.Not):
+        v = _truth_under_nan(e.operand, field)
+        return None if v is None else not v
+    if isinstance(e, ast.BoolOp):
+        vs = [_truth_under_nan(v, field) for v in e.values]
+        if isinstance(e.op, ast.And):
+            return False if any(v is False for v in vs) else (None if any(v is None for v in vs) else True)
+        return True if any(v is True for v in vs) else (None if any(v is None for v in vs) else False)
+    if isinstance(e, ast.Compare):
+        if not mentions(e):
+            return None
+        operands = [e.left] + list(e.comparators)
+        # a chain is a conjunction of its links; a link that involves the NaN operand is False (True for !=)
+        res = True
+        for op, a, b in zip(e.ops, operands, operands[1:]):
+            if mentions(a) or mentions(b):
+                if isinstance(op, (ast.In, ast.NotIn, ast.Is, ast.IsNot)):
+                    return None
+                link = isinstance(op, ast.NotEq)
+            else:
+                link = None
+            if link is False:
+                return False
+            if link is None:
+                res = None
+        return res
+    if isinstance(e, ast.Call) and ast.unparse(e.func) in ("math.isnan", "np.isnan", "jnp.isnan", "isnan") and e.args and mentions(e.args[0]):
+        return True
+    if isinstance(e, ast.Call) and ast.unparse(e.func) in ("math.isfinite", "np.isfinite", "jnp.isfinite", "isfinite") and e.args and mentions(e.args[0]):
+        return False
+    return None
+
+
+def _nan_gamma(ctx, col):
+    for cfg in c10.config_classes(ctx):
+        fields_ = ctx.ct.all_fields(cfg)
+        if "gamma" not in fields_ or cfg.name not in DOMAINS:
+            continue
+        owner, fn, got, _exc, _n = validator_constraints(ctx, cfg)
+        guards = [st for st in ast.walk(fn) if isinstance(st, ast.If) and st.body and isinstance(st.body[-1], ast.Raise)
+                  and any(is_self_attr(n, "gamma") for n in ast.walk(st.test))]
+        vals = [_truth_under_nan(g_.test, "gamma") for g_ in guards]
+        if any(v is True for v in vals):
+            col.add("R20.15", f"{cfg.name}.gamma", owner.module.relpath, fn.lineno, True, "a NaN gamma is rejected (a guard fires when every comparison with gamma is false)",
+                    text="gamma NaN")
+        elif any(v is None for v in vals) or not guards:
+            raise AnalysisError(f"{cfg.name}: cannot tell whether a NaN gamma is rejected (guards on gamma: {[ast.unparse(g_.test) for g_ in guards]})")
+        else:
+            col.add("R20.15", f"{cfg.name}.gamma", owner.module.relpath, guards[0].lineno, False,
+                    f"no guard on gamma fires for NaN ({'; '.join(ast.unparse(g_.test) for g_ in guards)}): gamma = float('nan') is outside [0, 1] but is "
+                    "accepted by every route; the solver is built with a NaN threshold and solve() returns NaN values", text="gamma NaN")
